@@ -2,6 +2,7 @@ import StorageModel.C15.General
 import StorageModel.C15.Config
 import StorageModel.C15.Cursor
 import StorageModel.C15.Order
+import StorageModel.C15.Extended
 /-
   C15 — Parent and child (extension) stores stay consistent.
 
@@ -14,7 +15,9 @@ import StorageModel.C15.Order
   populations of plain-parent and child entities, for plain and extended child stores.
 
   The theorems are about the engine model `StorageModel.C15` (parent store A, plain child A1,
-  extended child A2; `stepOp`, `run`, `findById`, `queryIds`, …), which follows boltz/store.go,
+  extended child A2; `stepOpX`, `runX` — create / update / patch (with the parent entity strategy's
+  validation of the shared fields) / DeleteById / DeleteWhere through each store —, `findById`,
+  `queryIds`, …), which follows boltz/store.go,
   store_crud.go, store_query.go, query_scanners.go, base.go and the index protocol of
   indexes.go, and is compared with the real stores on every run of the check.
 
@@ -35,45 +38,63 @@ theorem config_is_known : Config.known = true := by decide
     when the parent entity already exists (the repair of 8269ce9). -/
 theorem create_captures_old_parent_values : Config.current.childCreateCapturesOld = true := by decide
 
-/-- a state reached by any history of transactions issued through A, A1 and A2 -/
-def Reached (st : St) : Prop := ∃ hist : List (List Op), st = run Config.current St.init hist
+/-- a state reached by any history of transactions (create, update, patch, DeleteById,
+    DeleteWhere; valid and invalid shared-field values) issued through A, A1 and A2 -/
+def Reached (st : St) : Prop := ∃ hist : List (List OpX), st = runX Config.current St.init hist
 
+theorem reached_inv {st : St} (h : Reached st) : Inv st := by
+  obtain ⟨hist, rfl⟩ := h
+  exact (runX_refines Config.current create_captures_old_parent_values hist St.init inv_init).2
+
+/-- the histories over create / update / DeleteById with valid values only (`run`, `stepOp` of
+    Model.lean) are among them -/
 theorem admissible (hist : List (List Op)) : General.Admissible Config.current hist :=
   Or.inl create_captures_old_parent_values
-
-theorem reached_general {st : St} (h : Reached st) : General.Reached Config.current st := by
-  obtain ⟨hist, rfl⟩ := h
-  exact ⟨hist, admissible hist, rfl⟩
 
 /-- **Parent-store indexes and constraints apply identically to child entities.**  After every
     history issued through A, A1 and A2 the parent's unique index on `name` and set index on
     `roles` (and A1's own unique index) are exactly the image of the entity table — whatever
     store an entity was created, extended or updated through — and no entity has an empty name. -/
-theorem parent_constraints_apply_to_child_entities (hist : List (List Op)) :
-    Inv (run Config.current St.init hist) :=
-  General.parent_constraints_apply_to_child_entities _ hist (admissible hist)
+theorem parent_constraints_apply_to_child_entities (hist : List (List OpX)) :
+    Inv (runX Config.current St.init hist) :=
+  (runX_refines Config.current create_captures_old_parent_values hist St.init inv_init).2
 
 /-- The engine model refines the table specification on every history: same entity table,
     and every further operation gives the same result — success with the same table (and the
     invariant again), or the same error. -/
-theorem model_refines_spec (hist : List (List Op)) :
-    (run Config.current St.init hist).ents = specRun [] hist ∧
-    ∀ op, match specOp (specRun [] hist) op with
-      | .error e => stepOp Config.current (run Config.current St.init hist) op = .error e
-      | .ok ents' => ∃ st', stepOp Config.current (run Config.current St.init hist) op = .ok st' ∧
+theorem model_refines_spec (hist : List (List OpX)) :
+    (runX Config.current St.init hist).ents = specRunX [] hist ∧
+    ∀ op, match specOpX (specRunX [] hist) op with
+      | .error e => stepOpX Config.current (runX Config.current St.init hist) op = .error e
+      | .ok ents' => ∃ st', stepOpX Config.current (runX Config.current St.init hist) op = .ok st' ∧
           st'.ents = ents' ∧ Inv st' := by
-  obtain ⟨h1, h2⟩ := General.model_refines_spec _ hist (admissible hist)
-  exact ⟨h1, fun op => h2 op (Or.inl create_captures_old_parent_values)⟩
+  obtain ⟨h1, h2⟩ := runX_refines Config.current create_captures_old_parent_values hist St.init inv_init
+  refine ⟨h1, fun op => ?_⟩
+  have := stepOpX_refines Config.current create_captures_old_parent_values _ h2 op
+  rw [h1] at this
+  exact this
 
 /-- The specification's indexes (`derive`: the image of the table, what the spec side of the
     check prints) answer every index read exactly like the engine model's incrementally
     maintained ones, after every history. -/
-theorem derived_indexes_agree (hist : List (List Op)) :
-    let st := run Config.current St.init hist
-    let d := derive (specRun [] hist)
+theorem derived_indexes_agree (hist : List (List OpX)) :
+    let st := runX Config.current St.init hist
+    let d := derive (specRunX [] hist)
     d.ents = st.ents ∧ (∀ v, mget d.nameIdx v = mget st.nameIdx v) ∧
-    (∀ r j, (r, j) ∈ d.rolesIdx ↔ (r, j) ∈ st.rolesIdx) ∧ (∀ c, mget d.codeIdx c = mget st.codeIdx c) :=
-  General.derived_indexes_agree _ hist (admissible hist)
+    (∀ r j, (r, j) ∈ d.rolesIdx ↔ (r, j) ∈ st.rolesIdx) ∧ (∀ c, mget d.codeIdx c = mget st.codeIdx c) := by
+  obtain ⟨h1, h2⟩ := runX_refines Config.current create_captures_old_parent_values hist St.init inv_init
+  have h1' : specRunX [] hist = (runX Config.current St.init hist).ents := h1.symm
+  simp only
+  rw [h1']
+  refine ⟨rfl, ?_, ?_, ?_⟩
+  · intro v
+    rw [derive_nameIdx]
+    exact umirror_agree (deriveUniq_mirror _ _ (umirror_unique h2.name)) h2.name v
+  · intro r j
+    rw [derive_roles_mirror _ r j, h2.roles r j]
+  · intro c
+    rw [derive_codeIdx]
+    exact umirror_agree (deriveUniq_mirror _ _ (umirror_unique h2.code)) h2.code c
 
 /-- **An entity created through the child exists in both**: after a successful `Create`
     through a child store (plain or extended; over a new id or over an existing entity that
@@ -82,13 +103,13 @@ theorem derived_indexes_agree (hist : List (List Op)) :
     the parent's indexes hold it — at any point of any history. -/
 theorem create_through_child_exists_in_both (st : St) (hr : Reached st)
     (s : Sel) (hs : s = .A1 ∨ s = .A2) (id : Id) (p : Payload) (st' : St)
-    (h : createM Config.current st s id p = .ok st') :
+    (h : createV Config.current st s id p = .ok st') :
     findById st' .A id = some (p.name, canon p.roles, none) ∧
     findById st' s id = some (p.name, canon p.roles, p.child) ∧
     id ∈ queryIds st' .A .tt ∧ id ∈ queryIds st' s .tt ∧ id ∈ iterateValidIds st' s .tt ∧
     mget st'.nameIdx p.name = some id ∧ (∀ r, r ∈ p.roles → (r, id) ∈ st'.rolesIdx) :=
-  General.create_through_child_exists_in_both _ st (reached_general hr) s hs id p st'
-    (Or.inl create_captures_old_parent_values) h
+  General.create_through_child_exists_in_both _ st (reached_inv hr) s hs id p st'
+    (Or.inl create_captures_old_parent_values) (createV_ok _ st s id p st' h).1
 
 /-- **The plain child store's queries return only entities that have child data** (and all of
     those that satisfy the filter) — for every state, every filter, unsorted and sorted scanner
@@ -163,7 +184,7 @@ theorem update_either_route_same_events (st : St) (id : Id) (e : Ent) (hm : mget
     indexed and the old ones are not) — at any point of any history. -/
 theorem update_updates_shared_fields_and_indexes (st : St) (hr : Reached st)
     (s : Sel) (id : Id) (p : Payload) (chk : Option Checker) (st' : St)
-    (h : updateM st s id p chk = .ok st') :
+    (h : updateV st s id p chk = .ok st') :
     Inv st' ∧
     ∃ e, mget st.ents id = some e ∧
       findById st' .A id = some ((persistShared e p chk).name, (persistShared e p chk).roles, none) ∧
@@ -171,7 +192,8 @@ theorem update_updates_shared_fields_and_indexes (st : St) (hr : Reached st)
       (e.name ≠ (persistShared e p chk).name → mget st'.nameIdx e.name = none) ∧
       (∀ r, (r, id) ∈ st'.rolesIdx ↔ r ∈ (persistShared e p chk).roles) ∧
       (∀ j, j ≠ id → mget st'.ents j = mget st.ents j) :=
-  General.update_updates_shared_fields_and_indexes _ st (reached_general hr) s id p chk st' h
+  General.update_updates_shared_fields_and_indexes Config.current st (reached_inv hr) s id p chk st'
+    (updateV_ok st s id p chk st' h).1
 
 /-- **Deleting through either store removes both parts**: `DeleteById` through the plain child,
     the extended child or the parent is the same operation, and after it the entity is found
@@ -190,14 +212,14 @@ theorem delete_leaves_no_trace (st : St) (hr : Reached st) (s : Sel) (id : Id) (
     Inv st' ∧ mget st'.ents id = none ∧
     (∀ v, mget st'.nameIdx v ≠ some id) ∧ (∀ r, (r, id) ∉ st'.rolesIdx) ∧ (∀ c, mget st'.codeIdx c ≠ some id) ∧
     (∀ j, j ≠ id → mget st'.ents j = mget st.ents j) :=
-  General.delete_leaves_no_trace _ st (reached_general hr) s id st' h
+  General.delete_leaves_no_trace Config.current st (reached_inv hr) s id st' h
 
 /-- which entities have child data changes only by `Create` through that child store and by
     `DeleteById` (through any store) — for every state and every successful operation -/
 theorem child_data_changes_only_by_create_delete (st st' : St) (op : Op)
-    (h : stepOp Config.current st op = .ok st') (s : Sel) (hs : s = .A1 ∨ s = .A2) (j : Id) :
+    (h : stepOpX Config.current st (.ofOp op) = .ok st') (s : Sel) (hs : s = .A1 ∨ s = .A2) (j : Id) :
     isEntityPresent st' s j = General.childDataAfter op s j (isEntityPresent st s j) :=
-  General.child_data_changes_only_by_create_delete _ st st' op h s hs j
+  General.child_data_changes_only_by_create_delete _ st st' op (stepOpX_ofOp_ok _ st st' op h) s hs j
 
 /-- `childDataAfter` spelled out: create through `s` of `j` sets it, delete of `j` clears it,
     everything else leaves it -/
@@ -212,11 +234,16 @@ example (s s' : Sel) (id j : Id) (p : Payload) (chk : Option Checker) (b : Bool)
 theorem uniqueness_enforced_through_child (st : St) (hr : Reached st)
     (s : Sel) (id other : Id) (eo : Ent) (p : Payload)
     (hne : other ≠ id) (ho : mget st.ents other = some eo) (hname : eo.name = p.name) :
-    (id ≠ 0 → isEntityPresent st s id = false → createM Config.current st s id p = .error .dupName) ∧
+    (id ≠ 0 → isEntityPresent st s id = false → validateShared p none = none →
+      createV Config.current st s id p = .error .dupName) ∧
     (∀ e chk, id ≠ 0 → mget st.ents id = some e → e.hasChild s = true → proceed chk (·.name) = true →
-      e.name ≠ p.name → updateM st s id p chk = .error .dupName) := by
-  obtain ⟨h1, h2⟩ := General.uniqueness_enforced_through_child _ st (reached_general hr) s id other eo p hne ho hname
-  exact ⟨fun a b => h1 a b (Or.inl create_captures_old_parent_values), h2⟩
+      e.name ≠ p.name → validateShared p chk = none → updateV st s id p chk = .error .dupName) := by
+  obtain ⟨h1, h2⟩ := General.uniqueness_enforced_through_child _ st (reached_inv hr) s id other eo p hne ho hname
+  refine ⟨fun a b hv => ?_, fun e chk a hm hc hpn hn hv => ?_⟩
+  · rw [createV_of_valid _ st s id p hv]
+    exact h1 a b (Or.inl create_captures_old_parent_values)
+  · rw [updateV_of_valid st s id p chk (by simp [updatePre, a, hm, hc]) hv]
+    exact h2 e chk a hm hc hpn hn
 
 /-! ### the id cursors a store hands out, under any script of `Next` / `Seek` calls
 
@@ -340,6 +367,111 @@ example : (ScanCur.next sampleMixed .A2 .tt (ScanCur.seek sampleMixed .A2 .tt (i
 example : queryWithCursor sampleMixed .A1 .tt (rolesIndexIds sampleMixed 1) = [4] ∧
     queryWithCursor sampleMixed .A2 .tt (rolesIndexIds sampleMixed 1) = [3, 4] := by decide
 
+/-! ### DeleteWhere through any store -/
+
+/-- **`DeleteWhere` through a store removes exactly the entities that store's own `QueryIds`
+    returns for the filter** — the ids the store owns (plain child: entities with child data;
+    extended child and parent: every entity) that satisfy it —, each through the usual delete
+    fan-out: it never fails, the removed entities are gone from every store, no index entry of
+    the parent or of a child store refers to them, every other entity (a plain-parent entity
+    matching a filter issued through the plain child store, say) is untouched, and the
+    invariant holds again — at any point of any history. -/
+theorem delete_where_exact (st : St) (hr : Reached st) (s : Sel) (f : Filter) :
+    ∃ st', deleteWhereM st s f = .ok st' ∧ Inv st' ∧
+      queryIds st s f = ownedIds st.ents s false f ∧
+      (∀ j, mget st'.ents j = if j ∈ queryIds st s f then none else mget st.ents j) ∧
+      (∀ j, j ∈ queryIds st s f →
+        (∀ s', findById st' s' j = none) ∧ (∀ v, mget st'.nameIdx v ≠ some j) ∧
+        (∀ r, (r, j) ∉ st'.rolesIdx) ∧ (∀ c, mget st'.codeIdx c ≠ some j)) := by
+  obtain ⟨st', h1, h2, h3⟩ := deleteWhere_refines st (reached_inv hr) s f
+  have hq := queryIds_eq_owned st s f
+  have hget : ∀ j, mget st'.ents j = if j ∈ queryIds st s f then none else mget st.ents j := by
+    intro j; rw [h2, hq]; exact mget_foldl_mdel _ _ j
+  refine ⟨st', h1, h3, hq, hget, ?_⟩
+  intro j hj
+  have hgone : mget st'.ents j = none := by rw [hget j, if_pos hj]
+  refine ⟨fun s' => by simp [findById, bucketForLoad, hgone], ?_, ?_, ?_⟩
+  · intro v hv
+    obtain ⟨_, e, he, _⟩ := (h3.name v j).1 hv
+    rw [hgone] at he; cases he
+  · intro r hr'
+    obtain ⟨e, he, _⟩ := (h3.roles r j).1 hr'
+    rw [hgone] at he; cases he
+  · intro c hc
+    obtain ⟨_, e, he, _⟩ := (h3.code c j).1 hc
+    rw [hgone] at he; cases he
+
+/-- … spelled out for the plain child store: an entity without A1 data survives whatever the filter -/
+theorem delete_where_through_child_spares_plain_parents (st : St) (hr : Reached st) (f : Filter)
+    (j : Id) (e : Ent) (hj : mget st.ents j = some e) (hplain : e.c1 = none) :
+    ∃ st', deleteWhereM st .A1 f = .ok st' ∧ mget st'.ents j = some e := by
+  obtain ⟨st', h1, _, hq, hget, _⟩ := delete_where_exact st hr .A1 f
+  refine ⟨st', h1, ?_⟩
+  rw [hget j, hq, if_neg, hj]
+  intro hmem
+  obtain ⟨e', he', ho, _⟩ := (mem_ownedIds _ _ _ _ _).1 hmem
+  rw [hj] at he'; cases he'
+  simp [ownsEnt, Sel.isExtended, Ent.hasChild, hplain] at ho
+
+/-! ### rejection agrees whichever store the write goes through -/
+
+/-- **Every write the parent store refuses is refused through the child stores too, with the same
+    error, and leaves the state as it was.**  (1) Whether `Create` is refused by the parent
+    strategy's validation depends on the shared fields only: past the pre-checks, through every
+    store and with any child value the verdict of `validateShared` is the result.  (2) For an
+    entity with child data, `Update`/patch through the parent store *is* the update through
+    the child store (same state or same error — validation errors, duplicates, …), also with the
+    strategy's validation in place.  (3) A refused operation rolls its transaction back. -/
+theorem reject_either_route_same (st : St) (id : Id) (p : Payload) (chk : Option Checker) :
+    (∀ s c e, validateShared p none = some e → createPre st.ents s id = none →
+      createV Config.current st s id { p with child := c } = .error e) ∧
+    (∀ s c e, validateShared p chk = some e → updatePre st.ents s id = none →
+      updateV st s id { p with child := c } chk = .error e) ∧
+    (∀ e, mget st.ents id = some e → e.hasChild .A1 = true →
+      updateV st .A id p chk = updateV st .A1 id { p with child := e.childField .A1 } chk) ∧
+    (∀ e, mget st.ents id = some e → e.hasChild .A1 = false → e.hasChild .A2 = true →
+      updateV st .A id p chk = updateV st .A2 id { p with child := e.childField .A2 } chk) ∧
+    (∀ op rest e, stepOpX Config.current st op = .error e → stepTxX Config.current st (op :: rest) = st) := by
+  refine ⟨?_, ?_, ?_, ?_, ?_⟩
+  · intro s c e hv hp
+    simp only [createV, hp, validateShared_child_irrelevant, hv]
+  · intro s c e hv hp
+    simp only [updateV, updateVWith, hp, validateShared_child_irrelevant, hv]
+  · intro e hm h1
+    have hpre : updatePre st.ents .A id = updatePre st.ents .A1 id := by
+      have h1' : e.c1.isSome = true := h1
+      simp [updatePre, hm, h1', Ent.hasChild]
+    simp only [updateV, updateVWith, hpre, validateShared_child_irrelevant]
+    rw [(update_either_route_same_state st id e hm p chk).1 h1]
+  · intro e hm h1 h2
+    have hpre : updatePre st.ents .A id = updatePre st.ents .A2 id := by
+      have h2' : e.c2.isSome = true := h2
+      simp [updatePre, hm, h2', Ent.hasChild]
+    simp only [updateV, updateVWith, hpre, validateShared_child_irrelevant]
+    rw [(update_either_route_same_state st id e hm p chk).2.1 h1 h2]
+  · intro op rest e h
+    exact stepTxX_of_error _ st op rest e h
+
+/-- `validateShared` spelled out; non-vacuity: a reserved name / a fourth role is refused through
+    the parent and through both child stores, on create and on update, and a patch that does not
+    name the field is not -/
+example (p : Payload) : validateShared p none =
+    (if p.name == 9 then some Err.invalidName else if decide (p.roles.length > 3) then some Err.invalidRoles else none) := rfl
+example : ∀ s ∈ [Sel.A, Sel.A1, Sel.A2],
+    createV Config.current St.init s 1 ⟨9, [1], some 1⟩ = .error .invalidName ∧
+    createV Config.current St.init s 1 ⟨1, [1, 2, 3, 1], some 1⟩ = .error .invalidRoles := by decide
+example :
+    let st := run Config.current St.init [[.create .A1 1 ⟨1, [1], some 1⟩]]
+    updateV st .A 1 ⟨2, [1, 1, 1, 1], none⟩ none = .error .invalidRoles ∧
+    updateV st .A1 1 ⟨2, [1, 1, 1, 1], some 1⟩ none = .error .invalidRoles ∧
+    (updateV st .A1 1 ⟨2, [1, 1, 1, 1], some 1⟩ (some ⟨true, false, false⟩)).toOption.isSome = true := by decide
+/-- non-vacuity for `DeleteWhere`: population of `sampleMixed` (A1 data on 4 only): `DeleteWhere(true)`
+    through A1 removes 4 alone, through A2 or A everything -/
+example : (deleteWhereM sampleMixed .A1 .tt).toOption.map (fun st => idsInOrder st) = some [1, 2, 3, 5, 6] ∧
+    (deleteWhereM sampleMixed .A2 .tt).toOption.map (fun st => idsInOrder st) = some [] ∧
+    (deleteWhereM sampleMixed .A1 (.hasRole 1)).toOption.map (fun st => (idsInOrder st, rolesIndexIds st 1)) = some ([1, 2, 3, 5, 6], [3]) := by
+  decide
+
 /-! ### two child stores of one parent: the registration order -/
 
 /-- **Every child store of the parent takes part in `Update` and `DeleteById` whichever was
@@ -348,11 +480,11 @@ example : queryWithCursor sampleMixed .A1 .tt (rolesIndexIds sampleMixed 1) = [4
     state or the same error (so every theorem above holds for either wiring: the delete fan-out
     still runs A1's delete constraints after A2 reported the entity, and an entity carrying data
     of both child stores is updated alike through either), and a delete raises the same events. -/
-theorem child_store_registration_order_irrelevant (a2First : Bool) (st : St) (op : Op) :
-    stepOpOrd a2First Config.current st op = stepOp Config.current st op ∧
+theorem child_store_registration_order_irrelevant (a2First : Bool) (st : St) (op : OpX) :
+    stepOpXOrd a2First Config.current st op = stepOpX Config.current st op ∧
     (∀ s id ev, ev ∈ eventsOfOrd a2First st (.delete s id) ↔ ev ∈ eventsOf st (.delete s id)) ∧
     (∀ op', eventsOfOrd false st op' = eventsOf st op') :=
-  ⟨stepOpOrd_order_irrelevant a2First _ st op, delete_events_order a2First st, eventsOfOrd_false st⟩
+  ⟨stepOpXOrd_order_irrelevant a2First _ st op, delete_events_order a2First st, eventsOfOrd_false st⟩
 
 /-- … in particular after a delete through any store, in either wiring, no index entry of the
     parent or of a child store refers to the id -/
@@ -376,22 +508,22 @@ example :
 
 /-- a mixed population reached through all three stores, with a child create over an existing
     plain-parent entity, updates and a delete through the "other" store -/
-def sampleHist : List (List Op) :=
+def sampleHist : List (List OpX) :=
   [[.create .A 2 ⟨3, [1], none⟩], [.create .A1 1 ⟨1, [1, 2], some 1⟩], [.create .A2 3 ⟨2, [2], some 2⟩],
    [.update .A 1 ⟨1, [3], none⟩ none], [.update .A2 3 ⟨2, [], none⟩ (some ⟨false, true, false⟩)],
    [.create .A1 4 ⟨3, [], none⟩],      -- refused: the name is held by the plain-parent entity 2
    [.create .A1 2 ⟨4, [2, 3], some 2⟩], -- extends the plain-parent entity 2, renaming it
    [.delete .A2 1]]
 
-example : Reached (run Config.current St.init sampleHist) := ⟨sampleHist, rfl⟩
-example : queryIds (run Config.current St.init sampleHist) .A .tt = [2, 3] := by decide
-example : queryIds (run Config.current St.init sampleHist) .A1 .tt = [2] := by decide
-example : queryIds (run Config.current St.init (sampleHist.take 6)) .A1 .tt = [1] := by decide
-example : queryIds (run Config.current St.init sampleHist) .A2 .tt = [2, 3] := by decide
-example : iterateValidIds (run Config.current St.init sampleHist) .A2 .tt = [3] := by decide
-example : mget (run Config.current St.init sampleHist).nameIdx 3 = none ∧
-    mget (run Config.current St.init sampleHist).nameIdx 4 = some 2 := by decide
-example : createM Config.current (run Config.current St.init (sampleHist.take 5)) .A1 4 ⟨3, [], none⟩
+example : Reached (runX Config.current St.init sampleHist) := ⟨sampleHist, rfl⟩
+example : queryIds (runX Config.current St.init sampleHist) .A .tt = [2, 3] := by decide
+example : queryIds (runX Config.current St.init sampleHist) .A1 .tt = [2] := by decide
+example : queryIds (runX Config.current St.init (sampleHist.take 6)) .A1 .tt = [1] := by decide
+example : queryIds (runX Config.current St.init sampleHist) .A2 .tt = [2, 3] := by decide
+example : iterateValidIds (runX Config.current St.init sampleHist) .A2 .tt = [3] := by decide
+example : mget (runX Config.current St.init sampleHist).nameIdx 3 = none ∧
+    mget (runX Config.current St.init sampleHist).nameIdx 4 = some 2 := by decide
+example : createV Config.current (runX Config.current St.init (sampleHist.take 5)) .A1 4 ⟨3, [], none⟩
     = .error .dupName := by decide
 
 /-! ### why the tree before 8269ce9 violated C15 -/
@@ -454,4 +586,7 @@ end StorageModel.Properties.C15
 #print axioms StorageModel.Properties.C15.roles_index_cursor_enumerates_holders
 #print axioms StorageModel.Properties.C15.child_store_registration_order_irrelevant
 #print axioms StorageModel.Properties.C15.delete_fans_out_to_every_child_store
+#print axioms StorageModel.Properties.C15.delete_where_exact
+#print axioms StorageModel.Properties.C15.delete_where_through_child_spares_plain_parents
+#print axioms StorageModel.Properties.C15.reject_either_route_same
 #print axioms StorageModel.Properties.C15.pinned_create_violates
